@@ -85,6 +85,13 @@ def random_script(rng, level, size, skip, mx, n):
             steps.append({"a": "tick"})
             steps.append({"a": "tick"})
     steps.append({"a": "tick"})
+    if level == "icpt" and rng.random() < 0.5:          # reads whose wrapped reader fails: passed up, nothing recorded
+        extra = []
+        for st in steps:
+            extra.append(st)
+            if st["a"] == "recv" and not st.get("stale") and rng.random() < 0.06:
+                extra.append({"a": "recv", "s": st["s"], "w": (st["w"] + rng.choice([1, 2, 9, 300, 40000])) % 65536, "rfail": True})
+        steps = extra
     if level == "icpt" and rng.random() < 0.5:          # the RTCP writer refuses the writes of some ticks
         steps = [dict(st, wfail=True) if st["a"] == "tick" and rng.random() < 0.2 else st for st in steps]
     sc = {"level": level, "size": size, "skip": skip, "max": mx, "steps": steps}
